@@ -30,7 +30,7 @@ CLAIMED.update({
  "C09": {
   "engine": "ledgerh+CheckLedger",
   "technique": "Coq graph invariant by induction over all operation sequences (reach_InvG: edges = declared live parents, absent parents checkpointed, topological list order => acyclic); trace-acceptor correspondence; snapshot monitor with real signature re-verification",
-  "text": "C09_acyclic, C09_edges_exact: on every reachable ledger the graph is acyclic (every edge strictly increases a rank), each live vertex has exactly one edge from each declared parent that is live and from nothing else, and a declared parent that is not live is checkpointed (genesis excepted) - through dropped tips, rolled-back additions, equal parents and truncation. C09_created_vertex: created vertices reference live tips returned by the validation pass and weigh max+1. C09_unverified_never_admitted. The snapshot monitor recomputes digests/signatures of every vertex of the implementation with the real verifier and compares graph edges with declared parents.",
+  "text": "C09_acyclic, C09_edges_exact: on every reachable ledger the graph is acyclic (every edge strictly increases a rank), each live vertex has exactly one edge from each declared parent that is live and from nothing else, and a declared parent that is not live is checkpointed (genesis excepted) - through dropped tips, rolled-back additions, equal parents and truncation. C09_created_vertex: created vertices reference live tips returned by the validation pass and weigh max+1 as a uint64; C09_created_weight_wraps_refuted: on a parent of weight 2^64-1 (admissible by gossip: the weight window has no upper bound) the created weight is 0 (KNOWN-FINDING, reproduced on the real code on every run). C09_unverified_never_admitted. The snapshot monitor recomputes digests/signatures of every vertex of the implementation with the real verifier and compares graph edges with declared parents.",
   "note": LEDGER_NOTE + " Zero hash is reserved for 'no parent' (no vertex carries it).", "design_ref": "6 C09",
  },
 })
@@ -69,7 +69,7 @@ CLAIMED.update({
  "C14": {
   "engine": "ledgerh+CheckLedger",
   "technique": "Coq: all-or-nothing loaded flag and refusal of every malformed-stream class of the property; reproduction of the peer's ledger decided by the acceptor on real StreamDAG->LoadDag runs plus snapshot/balance/follow-up monitors",
-  "text": "C14_failure_leaves_not_loaded, C14_malformed_stream_refused (second self-sealed vertex, empty transaction, non-canonical amount, duplicate vertex/transaction, unknown parent or cycle). That a successful load reproduces vertices, edges, index, genesis wallet, balances and follow-up verdicts is checked on the real code (source vs loaded snapshots, balances, identical follow-up gossip) and against the model's load_dag on every run; KNOWN-FINDING: a peer that has truncated cannot be loaded from.",
+  "text": "C14_failure_leaves_not_loaded, C14_malformed_stream_refused (second self-sealed vertex, empty transaction, non-canonical amount, duplicate vertex/transaction, unknown parent or cycle), C14_followup_verdicts_refuted (the loaded node has the peer's vertices, edges and genesis wallet but not its weight/throughput counters: kernel-checked pair of ledgers that answer the same later vertex differently; KNOWN-FINDING reproduced on the real code on every run). That a successful load reproduces vertices, edges, index, genesis wallet, balances and follow-up verdicts is checked on the real code (source vs loaded snapshots, balances, identical follow-up gossip) and against the model's load_dag on every run; KNOWN-FINDING: a peer that has truncated cannot be loaded from.",
   "note": LEDGER_NOTE + " Reproduction theorem (load_dag of a reachable stream = source up to order) not yet proved: partial.", "design_ref": "6 C14",
  },
 })
